@@ -125,4 +125,25 @@ def msmOR (rows : List (MRow F)) : F × F :=
   ((m1 / (((1 : Nat) : F) - m1)) / (m0 / (((1 : Nat) : F) - m0)),
    armVar rows true / (q1 * q1) + armVar rows false / (q0 * q0))
 
+/-! ### log-risk-ratio influence values (per row): documented vs the two known-finding code paths
+
+`r1 = a (y - Q) / g1`, `r0 = (1-a) (y - Q) / g0` are the residual parts, `q1 q0` the (targeted) predictions under
+treatment / no treatment and `m1 m0` their means. -/
+
+/-- efficient influence value of log RR: `(1/m1)(r1 + q1 - m1) - (1/m0)(r0 + q0 - m0)` (what `TMLE.fit` computes) -/
+def icLogRRDoc (m1 m0 r1 r0 q1 q0 : F) : F := (r1 + (q1 - m1)) / m1 - (r0 + (q0 - m0)) / m0
+
+/-- `aipw_calculator(difference=False)` (finding F16):
+    `r1/m1 + (q1 - m1) - r0/m0 + (q0 - m0)` -/
+def icLogRRAipw (m1 m0 r1 r0 q1 q0 : F) : F := r1 / m1 + (q1 - m1) - r0 / m0 + (q0 - m0)
+
+/-- `crossfit.tmle_calculator(measure='risk_ratio')` (finding F15):
+    `(1/m1 * r1) + q1 - m1 - ((1/m0 * r0) + q0 - m0)` -/
+def icLogRRXfit (m1 m0 r1 r0 q1 q0 : F) : F := r1 / m1 + q1 - m1 - (r0 / m0 + q0 - m0)
+
+/-- the influence values of all rows for one of the three formulas -/
+def icRows (f : F → F → F → F → F → F → F) (m1 m0 : F) : List F → List F → List F → List F → List (Option F)
+  | r1 :: r1s, r0 :: r0s, q1 :: q1s, q0 :: q0s => some (f m1 m0 r1 r0 q1 q0) :: icRows f m1 m0 r1s r0s q1s q0s
+  | _, _, _, _ => []
+
 end ZV.Ci
